@@ -73,6 +73,9 @@ extern "C" int verif_case(const uint8_t *data, size_t size, struct verif_report 
 			mslot &s = M.slots[slot];
 			if (s.occ) { VFAIL(r, "slot-reused-while-live", "create handed out slot %u which still holds object %u (refs %d)", slot, s.objid, s.refs); break; }
 			for (auto &p : pool) if (p.db == di && (uint32_t)(p.h & 0xffffffffu) == slot) { reuse_seen = true; VCLASS(r, K_REUSE); reused_slots.insert({di, slot}); }
+			/* random() never repeats here (interposed), so a new handle that equals one issued before would make the old copies valid again */
+			for (auto &p : pool) if (p.db == di && p.h == h) { VFAIL(r, "stale-handle-revived", "create handed out handle %08x:%u again: every copy of the destroyed object's handle resolves to the new object", check, slot); break; }
+			if (r->fail) break;
 			void *inst = nullptr;
 			rc = qb_hdb_handle_get(&M.db, h, &inst);
 			if (rc != 0 || !inst) { VFAIL(r, "fresh-get", "get on a fresh handle returned %d", rc); break; }
